@@ -223,6 +223,12 @@ def run(ctx):
                 'along the base path; events: terminate, SIGKILL (process/remote), target exception on item 2 (base path of its own)')
     scs = scenarios(ctx.quick)
     bases, runs = land.sweep(scs, actions(ctx.quick), full=full)
+    # the other landing alphabet (right after each call made by the loop functions has returned), every point
+    post_scs = [dict(s_, post_call=True) for s_ in scs if not s_.get('base_only') and s_.get('pipe') == 'default' and s_.get('consume') != 'live'
+                and (len(s_.get('inputs', [])) == 2 or s_['target'] == 'p_poison')]
+    pbases, pruns = land.sweep(post_scs, ['terminate'], full=True)
+    ctx.extra['post_call_landing_runs'] = len(pruns)
+    runs = runs + pruns
     forced = land.run_cases(forced_cases(), case_timeout=90)
     # the parent-side forwarding thread of the remote kind, held at each of its lines while the child ends
     base = land.run_cases([{'script': forwarder_script(0, 'none') + []}], case_timeout=60)[0]
@@ -275,7 +281,7 @@ def run(ctx):
         ev = (case.get('events') or [None])[0]
         site = ((obs.get('landed') or [{}])[0].get('site')) or case.get('_site')      # where it really landed in this run
         ctx.count()
-        ctx.distinct((case['kind'], case['target'], len(case.get('inputs', [])), case.get('pipe'), case.get('consume'), bool(case.get('forced_terminate')), ev['action'] if ev else None, ev['k'] if ev else None))
+        ctx.distinct((case['kind'], case['target'], len(case.get('inputs', [])), case.get('pipe'), case.get('consume'), bool(case.get('forced_terminate')), bool(case.get('post_call')), ev['action'] if ev else None, ev['k'] if ev else None))
         v = judge(case, obs)
         ctx.outcome('%s:%s' % (case['kind'], v[0] if v else 'ok'))
         if v is None:
@@ -289,7 +295,7 @@ def run(ctx):
             continue
         where = ('%s@%s' % (ev['action'], land.site_sig(site, REPO))) if ev else ('forced-terminate' if case.get('forced_terminate') else 'no-fault')
         sig = 'LAND/%s/%s/%s-pipe%s/%s/%s' % (case['kind'], case['target'], case.get('pipe'), '+live-consumer' if case.get('consume') == 'live' else '', where, v[0])
-        ctx.violation(sig, {k: case.get(k) for k in ('kind', 'target', 'targs', 'inputs', 'close', 'pipe', 'consume', 'forced_terminate', 'events', '_site')},
+        ctx.violation(sig, {k: case.get(k) for k in ('kind', 'target', 'targs', 'inputs', 'close', 'pipe', 'consume', 'forced_terminate', 'events', '_site', 'post_call')},
                       {'results': obs.get('results'), 'stream_end': obs.get('stream_end'), 'after_end': obs.get('after_end')},
                       'a prefix of the expected results, then the end of the stream', engine='LAND')
     for b, s in list(zip(bases, scs))[:4]:
